@@ -315,6 +315,53 @@ func f(p Pair[
 	}
 }
 `,
+		"multiline-signatures": `package p
+
+type List[T any] []T
+
+func a[
+	K comparable,
+	V List[K],
+](
+	items List[K],
+	keep func(K) bool,
+	m map[K]V,
+	arr [3]int,
+	s struct{},
+	i interface{},
+	ch <-chan K,
+	p *List[K],
+	q pkg.Name,
+	v ...V,
+) (
+	r List[K],
+	err error,
+) {
+	return
+}
+
+type S[
+	T any,
+] struct {
+	a List[T]
+	f func(
+		x List[T],
+		y map[string]List[T],
+	) List[T]
+}
+
+var _ = a[
+	int,
+	List[int],
+](
+	List[int]{},
+	nil,
+	m[k],
+	arr[1:2],
+	x.(T),
+	p.q[0],
+)
+`,
 		"label-at-end": `package p
 
 func f(x int) {
